@@ -1,9 +1,536 @@
-// icmp family — nothing modelled yet (stub)
+// Icmp family: ICMP (+ RFC 4884 extensions / ICMPExtensionsStructure) and ICMPv6 (+ options, MLD records).
+// Field names, order and value formats mirror lean/TinsModel/Wire/Icmp/{Icmp,Icmp6,Ext}.lean (`fields`).
 #pragma once
 #include "wire_iface.h"
+#include <tins/icmp.h>
+#include <tins/icmpv6.h>
 namespace wire {
-inline bool icmp_dump(const PDU&, std::string&) { return false; }
-inline PDU* icmp_mk(const std::string&, const std::vector<std::string>&) { return 0; }
-inline bool icmp_apply(PDU&, const std::vector<std::string>&) { return false; }
-inline bool icmp_sweep(const PDU&, std::string&) { return false; }
+
+// ---------------------------------------------------------------- helpers
+inline bool ic_hex(const std::string& s, bytes& out) { return vh::parse_hex(s, out); }
+inline bool ic_hex_n(const std::string& s, size_t n, bytes& out) { return vh::parse_hex(s, out) && out.size() == n; }
+inline bool ic_ip4(const std::string& s, IPv4Address& out) {
+    bytes b;
+    if (!ic_hex_n(s, 4, b)) return false;
+    uint32_t v;
+    memcpy(&v, b.data(), 4);
+    out = IPv4Address(v);
+    return true;
+}
+inline bool ic_ip6(const std::string& s, IPv6Address& out) {
+    bytes b;
+    if (!ic_hex_n(s, 16, b)) return false;
+    out = IPv6Address(b.data());
+    return true;
+}
+inline std::vector<std::string> ic_split(const std::string& s, char sep) {
+    std::vector<std::string> out;
+    std::string cur;
+    for (size_t i = 0; i < s.size(); ++i) {
+        if (s[i] == sep) { out.push_back(cur); cur.clear(); }
+        else cur.push_back(s[i]);
+    }
+    out.push_back(cur);
+    return out;
+}
+inline std::vector<std::string> ic_list(const std::string& s) {
+    if (s == "-") return std::vector<std::string>();
+    return ic_split(s, ',');
+}
+inline std::string ic_join(const std::vector<std::string>& v, const char* sep) {
+    if (v.empty()) return "-";
+    std::string s;
+    for (size_t i = 0; i < v.size(); ++i) { if (i) s += sep; s += v[i]; }
+    return s;
+}
+inline std::string ic_num(unsigned long long v) { std::ostringstream o; o << v; return o.str(); }
+inline unsigned long ic_ul(const std::string& s) { return std::stoul(s); }
+inline bool ic_ip6_list(const std::string& s, std::vector<IPv6Address>& out) {
+    std::vector<std::string> l = ic_list(s);
+    for (size_t i = 0; i < l.size(); ++i) {
+        IPv6Address a;
+        if (!ic_ip6(l[i], a)) return false;
+        out.push_back(a);
+    }
+    return true;
+}
+inline std::string ic_ip6_join(const std::vector<IPv6Address>& v, const char* sep) {
+    std::vector<std::string> items;
+    for (size_t i = 0; i < v.size(); ++i) items.push_back(hex_of(v[i]));
+    return ic_join(items, sep);
+}
+
+// a typed getter: value, "none" (option_not_found), "bad" (malformed_option) or "mp" (malformed_packet)
+template <typename F>
+inline std::string ic_typed(F f) {
+    try { return f(); }
+    catch (const option_not_found&) { return "none"; }
+    catch (const malformed_option&) { return "bad"; }
+    catch (const malformed_packet&) { return "mp"; }
+}
+
+inline void ic_ext_dump(FieldDump& d, const ICMPExtensionsStructure& e) {
+    d.num("ext_version", (unsigned)e.version()).num("ext_reserved", (unsigned)e.reserved());
+    std::vector<std::string> items;
+    const ICMPExtensionsStructure::extensions_type& l = e.extensions();
+    for (ICMPExtensionsStructure::extensions_type::const_iterator it = l.begin(); it != l.end(); ++it) {
+        items.push_back(ic_num(it->extension_class()) + ":" + ic_num(it->extension_type()) + ":" + vh::to_hex(it->payload()));
+    }
+    d.str("exts", ic_join(items, ","));
+}
+
+// ---------------------------------------------------------------- ICMP
+inline std::string icmp4_dump(const ICMP& p) {
+    FieldDump d;
+    unsigned t = p.type();
+    d.num("type", t).num("code", p.code()).num("~checksum", p.checksum());
+    if (t == 3 || t == 11 || t == 12) {
+        d.num("pointer", p.pointer()).num("~length", p.length()).num("mtu", p.mtu());
+    } else {
+        d.num("id", p.id()).num("sequence", p.sequence()).str("gateway", hex_of(p.gateway()));
+    }
+    if (t == 13 || t == 14) {
+        d.num("original_timestamp", p.original_timestamp()).num("receive_timestamp", p.receive_timestamp())
+         .num("transmit_timestamp", p.transmit_timestamp());
+    } else if (t == 17 || t == 18) {
+        d.str("address_mask", hex_of(p.address_mask()));
+    }
+    ic_ext_dump(d, p.extensions());
+    return d.done();
+}
+
+inline bool ic_add_ext(ICMPExtensionsStructure& e, const std::vector<std::string>& op) {
+    bytes x;
+    if (!ic_hex(op[3], x)) return false;
+    ICMPExtension ext(uint8_t(ic_ul(op[1])), uint8_t(ic_ul(op[2])));
+    ext.payload(ICMPExtension::payload_type(x.begin(), x.end()));
+    e.add_extension(ext);
+    return true;
+}
+
+inline bool icmp4_apply(ICMP& p, const std::vector<std::string>& op) {
+    const std::string& k = op[0];
+    size_t n = op.size();
+    IPv4Address a4;
+    if (k == "type" && n == 2) { p.type(ICMP::Flags(uint8_t(ic_ul(op[1])))); return true; }
+    if (k == "code" && n == 2) { p.code(uint8_t(ic_ul(op[1]))); return true; }
+    if (k == "id" && n == 2) { p.id(uint16_t(ic_ul(op[1]))); return true; }
+    if (k == "sequence" && n == 2) { p.sequence(uint16_t(ic_ul(op[1]))); return true; }
+    if (k == "gateway" && n == 2 && ic_ip4(op[1], a4)) { p.gateway(a4); return true; }
+    if (k == "mtu" && n == 2) { p.mtu(uint16_t(ic_ul(op[1]))); return true; }
+    if (k == "pointer" && n == 2) { p.pointer(uint8_t(ic_ul(op[1]))); return true; }
+    if (k == "original_timestamp" && n == 2) { p.original_timestamp(uint32_t(ic_ul(op[1]))); return true; }
+    if (k == "receive_timestamp" && n == 2) { p.receive_timestamp(uint32_t(ic_ul(op[1]))); return true; }
+    if (k == "transmit_timestamp" && n == 2) { p.transmit_timestamp(uint32_t(ic_ul(op[1]))); return true; }
+    if (k == "address_mask" && n == 2 && ic_ip4(op[1], a4)) { p.address_mask(a4); return true; }
+    if (k == "use_length_field" && n == 2 && (op[1] == "0" || op[1] == "1")) { p.use_length_field(op[1] == "1"); return true; }
+    if (k == "set_echo_request" && n == 3) { p.set_echo_request(uint16_t(ic_ul(op[1])), uint16_t(ic_ul(op[2]))); return true; }
+    if (k == "set_echo_reply" && n == 3) { p.set_echo_reply(uint16_t(ic_ul(op[1])), uint16_t(ic_ul(op[2]))); return true; }
+    if (k == "set_info_request" && n == 3) { p.set_info_request(uint16_t(ic_ul(op[1])), uint16_t(ic_ul(op[2]))); return true; }
+    if (k == "set_info_reply" && n == 3) { p.set_info_reply(uint16_t(ic_ul(op[1])), uint16_t(ic_ul(op[2]))); return true; }
+    if (k == "set_dest_unreachable" && n == 1) { p.set_dest_unreachable(); return true; }
+    if (k == "set_time_exceeded" && n == 2 && (op[1] == "0" || op[1] == "1")) { p.set_time_exceeded(op[1] == "1"); return true; }
+    if (k == "set_param_problem" && n == 3 && (op[1] == "0" || op[1] == "1")) {
+        p.set_param_problem(op[1] == "1", uint8_t(ic_ul(op[2])));
+        return true;
+    }
+    if (k == "set_source_quench" && n == 1) { p.set_source_quench(); return true; }
+    if (k == "set_redirect" && n == 3 && ic_ip4(op[2], a4)) { p.set_redirect(uint8_t(ic_ul(op[1])), a4); return true; }
+    if (k == "add_extension" && n == 4) return ic_add_ext(p.extensions(), op);
+    if (k == "ext_version" && n == 2) { p.extensions().version(small_uint<4>(uint8_t(ic_ul(op[1]) % 16))); return true; }
+    if (k == "ext_reserved" && n == 2) { p.extensions().reserved(small_uint<12>(uint16_t(ic_ul(op[1]) % 4096))); return true; }
+    return false;
+}
+
+// ---------------------------------------------------------------- ICMPv6 typed getters
+struct Ic6Typed { uint8_t code; const char* name; std::string (*get)(const ICMPv6&); };
+
+inline std::string ic6_g_src_ll(const ICMPv6& p) { return hex_of(p.source_link_layer_addr()); }
+inline std::string ic6_g_tgt_ll(const ICMPv6& p) { return hex_of(p.target_link_layer_addr()); }
+inline std::string ic6_g_prefix_info(const ICMPv6& p) {
+    ICMPv6::prefix_info_type v = p.prefix_info();
+    return ic_num(v.prefix_len) + "." + ic_num(v.A) + "." + ic_num(v.L) + "." + ic_num(v.valid_lifetime) + "." +
+           ic_num(v.preferred_lifetime) + "." + ic_num(v.reserved2) + "." + hex_of(v.prefix);
+}
+inline std::string ic6_g_redirect(const ICMPv6& p) { return vh::to_hex(p.redirect_header()); }
+inline std::string ic6_g_mtu(const ICMPv6& p) { ICMPv6::mtu_type v = p.mtu(); return ic_num(v.first) + "." + ic_num(v.second); }
+inline std::string ic6_g_shortcut(const ICMPv6& p) {
+    ICMPv6::shortcut_limit_type v = p.shortcut_limit();
+    return ic_num(v.limit) + "." + ic_num(v.reserved1) + "." + ic_num(v.reserved2);
+}
+inline std::string ic6_g_advert(const ICMPv6& p) {
+    ICMPv6::new_advert_interval_type v = p.new_advert_interval();
+    return ic_num(v.reserved) + "." + ic_num(v.interval);
+}
+inline std::string ic6_g_ha_info(const ICMPv6& p) {
+    ICMPv6::new_ha_info_type v = p.new_home_agent_info();
+    std::vector<std::string> items;
+    for (size_t i = 0; i < v.size(); ++i) items.push_back(ic_num(v[i]));
+    return ic_join(items, ",");
+}
+inline std::string ic6_addr_list_str(const ICMPv6::addr_list_type& v) {
+    return vh::to_hex(v.reserved, 6) + "." + ic_ip6_join(v.addresses, ",");
+}
+inline std::string ic6_g_src_list(const ICMPv6& p) { return ic6_addr_list_str(p.source_addr_list()); }
+inline std::string ic6_g_tgt_list(const ICMPv6& p) { return ic6_addr_list_str(p.target_addr_list()); }
+inline std::string ic6_g_rsa(const ICMPv6& p) {
+    ICMPv6::rsa_sign_type v = p.rsa_signature();
+    return vh::to_hex(v.key_hash, 16) + "." + vh::to_hex(v.signature);
+}
+inline std::string ic6_g_timestamp(const ICMPv6& p) {
+    ICMPv6::timestamp_type v = p.timestamp();
+    return vh::to_hex(v.reserved, 6) + "." + ic_num(v.timestamp);
+}
+inline std::string ic6_g_nonce(const ICMPv6& p) { return vh::to_hex(p.nonce()); }
+inline std::string ic6_g_ip_prefix(const ICMPv6& p) {
+    ICMPv6::ip_prefix_type v = p.ip_prefix();
+    return ic_num(v.option_code) + "." + ic_num(v.prefix_len) + "." + hex_of(v.address);
+}
+inline std::string ic6_g_lladdr(const ICMPv6& p) {
+    ICMPv6::lladdr_type v = p.link_layer_addr();
+    return ic_num(v.option_code) + "." + vh::to_hex(v.address);
+}
+inline std::string ic6_g_naack(const ICMPv6& p) { ICMPv6::naack_type v = p.naack(); return ic_num(v.code) + "." + ic_num(v.status); }
+inline std::string ic6_g_map(const ICMPv6& p) {
+    ICMPv6::map_type v = p.map();
+    return ic_num(v.dist) + "." + ic_num(v.pref) + "." + ic_num(v.r) + "." + ic_num(v.valid_lifetime) + "." + hex_of(v.address);
+}
+inline std::string ic6_g_route_info(const ICMPv6& p) {
+    ICMPv6::route_info_type v = p.route_info();
+    return ic_num(v.prefix_len) + "." + ic_num(v.pref) + "." + ic_num(v.route_lifetime) + "." + vh::to_hex(v.prefix);
+}
+inline std::string ic6_g_rec_dns(const ICMPv6& p) {
+    ICMPv6::recursive_dns_type v = p.recursive_dns_servers();
+    return ic_num(v.lifetime) + "." + ic_ip6_join(v.servers, ",");
+}
+inline std::string ic6_g_hk_req(const ICMPv6& p) {
+    ICMPv6::handover_key_req_type v = p.handover_key_request();
+    return ic_num(v.AT) + "." + vh::to_hex(v.key);
+}
+inline std::string ic6_g_hk_reply(const ICMPv6& p) {
+    ICMPv6::handover_key_reply_type v = p.handover_key_reply();
+    return ic_num(v.lifetime) + "." + ic_num(v.AT) + "." + vh::to_hex(v.key);
+}
+inline std::string ic6_g_hai(const ICMPv6& p) {
+    ICMPv6::handover_assist_info_type v = p.handover_assist_info();
+    return ic_num(v.option_code) + "." + vh::to_hex(v.hai);
+}
+inline std::string ic6_g_mn(const ICMPv6& p) {
+    ICMPv6::mobile_node_id_type v = p.mobile_node_identifier();
+    return ic_num(v.option_code) + "." + vh::to_hex(v.mn);
+}
+inline std::string ic6_g_dns_search(const ICMPv6& p) {
+    ICMPv6::dns_search_list_type v = p.dns_search_list();
+    std::vector<std::string> items;
+    for (size_t i = 0; i < v.domains.size(); ++i)
+        items.push_back(vh::to_hex((const uint8_t*)v.domains[i].data(), v.domains[i].size()));
+    return ic_num(v.lifetime) + "." + ic_join(items, ",");
+}
+
+inline const std::vector<Ic6Typed>& ic6_typed_table() {
+    static std::vector<Ic6Typed> t;
+    if (t.empty()) {
+        Ic6Typed rows[] = {
+            {1, "source_link_layer_addr", ic6_g_src_ll}, {2, "target_link_layer_addr", ic6_g_tgt_ll},
+            {3, "prefix_info", ic6_g_prefix_info}, {4, "redirect_header", ic6_g_redirect}, {5, "mtu", ic6_g_mtu},
+            {6, "shortcut_limit", ic6_g_shortcut}, {7, "new_advert_interval", ic6_g_advert},
+            {8, "new_home_agent_info", ic6_g_ha_info}, {9, "source_addr_list", ic6_g_src_list},
+            {10, "target_addr_list", ic6_g_tgt_list}, {12, "rsa_signature", ic6_g_rsa}, {13, "timestamp", ic6_g_timestamp},
+            {14, "nonce", ic6_g_nonce}, {17, "ip_prefix", ic6_g_ip_prefix}, {19, "link_layer_addr", ic6_g_lladdr},
+            {20, "naack", ic6_g_naack}, {23, "map", ic6_g_map}, {24, "route_info", ic6_g_route_info},
+            {25, "recursive_dns_servers", ic6_g_rec_dns}, {27, "handover_key_request", ic6_g_hk_req},
+            {28, "handover_key_reply", ic6_g_hk_reply}, {29, "handover_assist_info", ic6_g_hai},
+            {30, "mobile_node_identifier", ic6_g_mn}, {31, "dns_search_list", ic6_g_dns_search},
+        };
+        t.assign(rows, rows + sizeof(rows) / sizeof(rows[0]));
+    }
+    return t;
+}
+
+inline std::string icmp6_dump(const ICMPv6& p) {
+    FieldDump d;
+    unsigned t = p.type();
+    d.num("type", t).num("code", p.code()).num("~checksum", p.checksum());
+    if (t == 1 || t == 3) {
+        d.num("~length", p.length()).num("id_low", p.identifier() % 256).num("sequence", p.sequence());
+    } else if (t == 143) {
+        d.num("identifier", p.identifier()).num("~record_count", p.sequence());
+    } else {
+        d.num("identifier", p.identifier()).num("sequence", p.sequence());
+    }
+    if (t == 134) {
+        d.num("hop_limit", p.hop_limit()).num("managed", (unsigned)p.managed()).num("other", (unsigned)p.other())
+         .num("home_agent", (unsigned)p.home_agent()).num("router_pref", (unsigned)p.router_pref())
+         .num("router_lifetime", p.router_lifetime()).num("reachable_time", p.reachable_time())
+         .num("retransmit_timer", p.retransmit_timer());
+    }
+    if (t == 136) {
+        d.num("router", (unsigned)p.router()).num("solicited", (unsigned)p.solicited()).num("override", (unsigned)p.override());
+    }
+    if (p.has_target_addr()) d.str("target_addr", hex_of(p.target_addr()));
+    if (p.has_dest_addr()) d.str("dest_addr", hex_of(p.dest_addr()));
+    if (t == 130) {
+        d.str("multicast_addr", hex_of(p.multicast_addr())).num("supress", (unsigned)p.supress()).num("qrv", (unsigned)p.qrv())
+         .num("qqic", p.qqic()).str("sources", ic_ip6_join(p.sources(), ","));
+    }
+    if (t == 143) {
+        std::vector<std::string> items;
+        const ICMPv6::multicast_address_records_list& l = p.multicast_address_records();
+        for (ICMPv6::multicast_address_records_list::const_iterator it = l.begin(); it != l.end(); ++it) {
+            items.push_back(ic_num(it->type) + ":" + hex_of(it->multicast_address) + ":" + ic_ip6_join(it->sources, "+") + ":" +
+                            vh::to_hex(it->aux_data));
+        }
+        d.str("records", ic_join(items, ","));
+    }
+    {
+        std::vector<std::string> items;
+        const ICMPv6::options_type& opts = p.options();
+        for (ICMPv6::options_type::const_iterator it = opts.begin(); it != opts.end(); ++it) {
+            std::ostringstream o;
+            o << (unsigned long)it->option() << ":" << it->length_field() << ":" << vh::to_hex(it->data_ptr(), it->data_size());
+            items.push_back(o.str());
+        }
+        d.str("opts", ic_join(items, ","));
+    }
+    const std::vector<Ic6Typed>& tt = ic6_typed_table();
+    for (size_t i = 0; i < tt.size(); ++i) {
+        if (p.search_option(ICMPv6::OptionTypes(tt[i].code))) {
+            const Ic6Typed& row = tt[i];
+            d.str(row.name, ic_typed([&]() { return row.get(p); }));
+        }
+    }
+    ic_ext_dump(d, p.extensions());
+    return d.done();
+}
+
+inline bool ic6_record(const std::string& s, ICMPv6::multicast_address_record& r) {
+    std::vector<std::string> f = ic_split(s, ':');
+    if (f.size() != 4) return false;
+    r.type = uint8_t(ic_ul(f[0]));
+    if (!ic_ip6(f[1], r.multicast_address)) return false;
+    if (f[2] != "-") {
+        std::vector<std::string> ss = ic_split(f[2], '+');
+        for (size_t i = 0; i < ss.size(); ++i) {
+            IPv6Address a;
+            if (!ic_ip6(ss[i], a)) return false;
+            r.sources.push_back(a);
+        }
+    }
+    bytes aux;
+    if (!ic_hex(f[3], aux)) return false;
+    r.aux_data.assign(aux.begin(), aux.end());
+    return true;
+}
+
+inline bool icmp6_apply(ICMPv6& p, const std::vector<std::string>& op) {
+    const std::string& k = op[0];
+    size_t n = op.size();
+    IPv6Address a6;
+    bytes x, y;
+    if (k == "type" && n == 2) { p.type(ICMPv6::Types(uint8_t(ic_ul(op[1])))); return true; }
+    if (k == "code" && n == 2) { p.code(uint8_t(ic_ul(op[1]))); return true; }
+    if (k == "identifier" && n == 2) { p.identifier(uint16_t(ic_ul(op[1]))); return true; }
+    if (k == "sequence" && n == 2) { p.sequence(uint16_t(ic_ul(op[1]))); return true; }
+    if (k == "maximum_response_code" && n == 2) { p.maximum_response_code(uint16_t(ic_ul(op[1]))); return true; }
+    if (k == "override" && n == 2) { p.override(small_uint<1>(uint8_t(ic_ul(op[1]) % 2))); return true; }
+    if (k == "solicited" && n == 2) { p.solicited(small_uint<1>(uint8_t(ic_ul(op[1]) % 2))); return true; }
+    if (k == "router" && n == 2) { p.router(small_uint<1>(uint8_t(ic_ul(op[1]) % 2))); return true; }
+    if (k == "hop_limit" && n == 2) { p.hop_limit(uint8_t(ic_ul(op[1]))); return true; }
+    if (k == "router_pref" && n == 2) { p.router_pref(small_uint<2>(uint8_t(ic_ul(op[1]) % 4))); return true; }
+    if (k == "home_agent" && n == 2) { p.home_agent(small_uint<1>(uint8_t(ic_ul(op[1]) % 2))); return true; }
+    if (k == "other" && n == 2) { p.other(small_uint<1>(uint8_t(ic_ul(op[1]) % 2))); return true; }
+    if (k == "managed" && n == 2) { p.managed(small_uint<1>(uint8_t(ic_ul(op[1]) % 2))); return true; }
+    if (k == "router_lifetime" && n == 2) { p.router_lifetime(uint16_t(ic_ul(op[1]))); return true; }
+    if (k == "reachable_time" && n == 2) { p.reachable_time(uint32_t(ic_ul(op[1]))); return true; }
+    if (k == "retransmit_timer" && n == 2) { p.retransmit_timer(uint32_t(ic_ul(op[1]))); return true; }
+    if (k == "target_addr" && n == 2 && ic_ip6(op[1], a6)) { p.target_addr(a6); return true; }
+    if (k == "dest_addr" && n == 2 && ic_ip6(op[1], a6)) { p.dest_addr(a6); return true; }
+    if (k == "multicast_addr" && n == 2 && ic_ip6(op[1], a6)) { p.multicast_addr(a6); return true; }
+    if (k == "multicast_address_records" && n == 2) {
+        ICMPv6::multicast_address_records_list l;
+        std::vector<std::string> items = ic_list(op[1]);
+        for (size_t i = 0; i < items.size(); ++i) {
+            ICMPv6::multicast_address_record r;
+            if (!ic6_record(items[i], r)) return false;
+            l.push_back(r);
+        }
+        p.multicast_address_records(l);
+        return true;
+    }
+    if (k == "sources" && n == 2) {
+        std::vector<IPv6Address> v;
+        if (!ic_ip6_list(op[1], v)) return false;
+        p.sources(ICMPv6::sources_list(v.begin(), v.end()));
+        return true;
+    }
+    if (k == "supress" && n == 2) { p.supress(small_uint<1>(uint8_t(ic_ul(op[1]) % 2))); return true; }
+    if (k == "qrv" && n == 2) { p.qrv(small_uint<3>(uint8_t(ic_ul(op[1]) % 8))); return true; }
+    if (k == "qqic" && n == 2) { p.qqic(uint8_t(ic_ul(op[1]))); return true; }
+    if (k == "use_mldv2" && n == 2 && (op[1] == "0" || op[1] == "1")) { p.use_mldv2(op[1] == "1"); return true; }
+    if (k == "use_length_field" && n == 2 && (op[1] == "0" || op[1] == "1")) { p.use_length_field(op[1] == "1"); return true; }
+    if (k == "add_extension" && n == 4) return ic_add_ext(p.extensions(), op);
+    if (k == "ext_version" && n == 2) { p.extensions().version(small_uint<4>(uint8_t(ic_ul(op[1]) % 16))); return true; }
+    if (k == "ext_reserved" && n == 2) { p.extensions().reserved(small_uint<12>(uint16_t(ic_ul(op[1]) % 4096))); return true; }
+    if (k == "add_option" && n == 3 && ic_hex(op[2], x)) {
+        p.add_option(ICMPv6::option(uint8_t(ic_ul(op[1])), x.begin(), x.end()));
+        return true;
+    }
+    if (k == "remove_option" && n == 2) { p.remove_option(ICMPv6::OptionTypes(uint8_t(ic_ul(op[1])))); return true; }
+    if (k == "source_link_layer_addr" && n == 2 && ic_hex_n(op[1], 6, x)) { p.source_link_layer_addr(HWAddress<6>(x.data())); return true; }
+    if (k == "target_link_layer_addr" && n == 2 && ic_hex_n(op[1], 6, x)) { p.target_link_layer_addr(HWAddress<6>(x.data())); return true; }
+    if (k == "prefix_info" && n == 7 && ic_ip6(op[6], a6)) {
+        p.prefix_info(ICMPv6::prefix_info_type(uint8_t(ic_ul(op[1])), small_uint<1>(uint8_t(ic_ul(op[2]) % 2)),
+                                               small_uint<1>(uint8_t(ic_ul(op[3]) % 2)), uint32_t(ic_ul(op[4])),
+                                               uint32_t(ic_ul(op[5])), a6));
+        return true;
+    }
+    if (k == "redirect_header" && n == 2 && ic_hex(op[1], x)) { p.redirect_header(byte_array(x.begin(), x.end())); return true; }
+    if (k == "mtu" && n == 3) { p.mtu(ICMPv6::mtu_type(uint16_t(ic_ul(op[1])), uint32_t(ic_ul(op[2])))); return true; }
+    if (k == "shortcut_limit" && n == 4) {
+        ICMPv6::shortcut_limit_type v(uint8_t(ic_ul(op[1])));
+        v.reserved1 = uint8_t(ic_ul(op[2]));
+        v.reserved2 = uint32_t(ic_ul(op[3]));
+        p.shortcut_limit(v);
+        return true;
+    }
+    if (k == "new_advert_interval" && n == 3) {
+        ICMPv6::new_advert_interval_type v(uint32_t(ic_ul(op[2])));
+        v.reserved = uint16_t(ic_ul(op[1]));
+        p.new_advert_interval(v);
+        return true;
+    }
+    if (k == "new_home_agent_info" && n == 2) {
+        ICMPv6::new_ha_info_type v;
+        std::vector<std::string> l = ic_list(op[1]);
+        for (size_t i = 0; i < l.size(); ++i) v.push_back(uint16_t(ic_ul(l[i])));
+        p.new_home_agent_info(v);
+        return true;
+    }
+    if ((k == "source_addr_list" || k == "target_addr_list") && n == 3 && ic_hex_n(op[1], 6, x)) {
+        ICMPv6::addr_list_type v;
+        if (!ic_ip6_list(op[2], v.addresses)) return false;
+        memcpy(v.reserved, x.data(), 6);
+        if (k == "source_addr_list") p.source_addr_list(v); else p.target_addr_list(v);
+        return true;
+    }
+    if (k == "rsa_signature" && n == 3 && ic_hex_n(op[1], 16, x) && ic_hex(op[2], y)) {
+        p.rsa_signature(ICMPv6::rsa_sign_type(x.begin(), ICMPv6::rsa_sign_type::signature_type(y.begin(), y.end())));
+        return true;
+    }
+    if (k == "timestamp" && n == 3 && ic_hex_n(op[1], 6, x)) {
+        ICMPv6::timestamp_type v(std::stoull(op[2]));
+        memcpy(v.reserved, x.data(), 6);
+        p.timestamp(v);
+        return true;
+    }
+    if (k == "nonce" && n == 2 && ic_hex(op[1], x)) { p.nonce(ICMPv6::nonce_type(x.begin(), x.end())); return true; }
+    if (k == "ip_prefix" && n == 4 && ic_ip6(op[3], a6)) {
+        p.ip_prefix(ICMPv6::ip_prefix_type(uint8_t(ic_ul(op[1])), uint8_t(ic_ul(op[2])), a6));
+        return true;
+    }
+    if (k == "link_layer_addr" && n == 3 && ic_hex(op[2], x)) {
+        p.link_layer_addr(ICMPv6::lladdr_type(uint8_t(ic_ul(op[1])), ICMPv6::lladdr_type::address_type(x.begin(), x.end())));
+        return true;
+    }
+    if (k == "naack" && n == 3) { p.naack(ICMPv6::naack_type(uint8_t(ic_ul(op[1])), uint8_t(ic_ul(op[2])))); return true; }
+    if (k == "map" && n == 6 && ic_ip6(op[5], a6)) {
+        p.map(ICMPv6::map_type(small_uint<4>(uint8_t(ic_ul(op[1]) % 16)), small_uint<4>(uint8_t(ic_ul(op[2]) % 16)),
+                               small_uint<1>(uint8_t(ic_ul(op[3]) % 2)), uint32_t(ic_ul(op[4])), a6));
+        return true;
+    }
+    if (k == "route_info" && n == 5 && ic_hex(op[4], x)) {
+        p.route_info(ICMPv6::route_info_type(uint8_t(ic_ul(op[1])), small_uint<2>(uint8_t(ic_ul(op[2]) % 4)),
+                                             uint32_t(ic_ul(op[3])), ICMPv6::route_info_type::prefix_type(x.begin(), x.end())));
+        return true;
+    }
+    if (k == "recursive_dns_servers" && n == 3) {
+        ICMPv6::recursive_dns_type v(uint32_t(ic_ul(op[1])));
+        if (!ic_ip6_list(op[2], v.servers)) return false;
+        p.recursive_dns_servers(v);
+        return true;
+    }
+    if (k == "handover_key_request" && n == 3 && ic_hex(op[2], x)) {
+        p.handover_key_request(ICMPv6::handover_key_req_type(small_uint<4>(uint8_t(ic_ul(op[1]) % 16)),
+                                                             ICMPv6::handover_key_req_type::key_type(x.begin(), x.end())));
+        return true;
+    }
+    if (k == "handover_key_reply" && n == 4 && ic_hex(op[3], x)) {
+        p.handover_key_reply(ICMPv6::handover_key_reply_type(uint16_t(ic_ul(op[1])), small_uint<4>(uint8_t(ic_ul(op[2]) % 16)),
+                                                             ICMPv6::handover_key_req_type::key_type(x.begin(), x.end())));
+        return true;
+    }
+    if (k == "handover_assist_info" && n == 3 && ic_hex(op[2], x)) {
+        p.handover_assist_info(ICMPv6::handover_assist_info_type(uint8_t(ic_ul(op[1])),
+                                                                 ICMPv6::handover_assist_info_type::hai_type(x.begin(), x.end())));
+        return true;
+    }
+    if (k == "mobile_node_identifier" && n == 3 && ic_hex(op[2], x)) {
+        p.mobile_node_identifier(ICMPv6::mobile_node_id_type(uint8_t(ic_ul(op[1])),
+                                                             ICMPv6::mobile_node_id_type::mn_type(x.begin(), x.end())));
+        return true;
+    }
+    if (k == "dns_search_list" && n == 3) {
+        ICMPv6::dns_search_list_type v(uint32_t(ic_ul(op[1])));
+        std::vector<std::string> l = ic_list(op[2]);
+        for (size_t i = 0; i < l.size(); ++i) {
+            bytes d;
+            if (!ic_hex(l[i], d)) return false;
+            v.domains.push_back(std::string(d.begin(), d.end()));
+        }
+        p.dns_search_list(v);
+        return true;
+    }
+    return false;
+}
+
+// ---------------------------------------------------------------- family interface
+inline bool icmp_dump(const PDU& p, std::string& out) {
+    if (p.pdu_type() == PDU::ICMP) { out = icmp4_dump(static_cast<const ICMP&>(p)); return true; }
+    if (p.pdu_type() == PDU::ICMPv6) { out = icmp6_dump(static_cast<const ICMPv6&>(p)); return true; }
+    return false;
+}
+
+inline PDU* icmp_mk(const std::string& cls, const std::vector<std::string>& a) {
+    if (cls == "ICMP") {
+        if (a.size() == 1) return new ICMP(ICMP::Flags(uint8_t(ic_ul(a[0]))));
+        return new ICMP();
+    }
+    if (cls == "ICMPv6") {
+        if (a.size() == 1) return new ICMPv6(ICMPv6::Types(uint8_t(ic_ul(a[0]))));
+        return new ICMPv6();
+    }
+    return 0;
+}
+
+inline bool icmp_apply(PDU& p, const std::vector<std::string>& op) {
+    if (op.empty()) return false;
+    if (p.pdu_type() == PDU::ICMP) return icmp4_apply(static_cast<ICMP&>(p), op);
+    if (p.pdu_type() == PDU::ICMPv6) return icmp6_apply(static_cast<ICMPv6&>(p), op);
+    return false;
+}
+
+// read-only accessors that can fail: every typed getter (also those whose option is absent), search_option on
+// every code present and on absent codes, the extension structure's own serialization
+inline bool icmp_sweep(const PDU& p, std::string& out) {
+    if (p.pdu_type() == PDU::ICMPv6) {
+        const ICMPv6& q = static_cast<const ICMPv6&>(p);
+        const std::vector<Ic6Typed>& tt = ic6_typed_table();
+        for (size_t i = 0; i < tt.size(); ++i) {
+            const Ic6Typed& row = tt[i];
+            sweep_item(out, row.name, [&]() { row.get(q); });
+        }
+        sweep_item(out, "search_option", [&]() {
+            for (unsigned c = 0; c < 256; ++c) q.search_option(ICMPv6::OptionTypes(c));
+        });
+        sweep_item(out, "ext_serialize", [&]() { ICMPExtensionsStructure e = q.extensions(); e.serialize(); });
+        return true;
+    }
+    if (p.pdu_type() == PDU::ICMP) {
+        const ICMP& q = static_cast<const ICMP&>(p);
+        sweep_item(out, "ext_serialize", [&]() { ICMPExtensionsStructure e = q.extensions(); e.serialize(); });
+        return true;
+    }
+    return false;
+}
+
 } // namespace wire
